@@ -110,6 +110,10 @@ func c01Generate(seed uint64, tier string, index int) json.RawMessage {
 	p := c01Plan{}
 	p.Cfg = schedCfg(r, 30000)
 	p.Cfg.ClockPermille = []int{0, 5, 20, 60}[r.Intn(4)]
+	if r.Chance(500) {
+		// pre-lock yields: the windows between an unlocked read and the following lock acquisition
+		p.Cfg.LockYieldPermille = []int{50, 150, 400}[r.Intn(3)]
+	}
 	allow := r.Chance(300)
 	n1 := nodeOpts{RevCacheSize: -1, FeedWorkers: r.Range(1, 3), NumVB: []int{2, 4, 8}[r.Intn(3)], AllowConflicts: allow,
 		PendingMaxWaitMs: []int{200, 1000, 5000}[r.Intn(3)]}
@@ -136,9 +140,9 @@ func c01Generate(seed uint64, tier string, index int) json.RawMessage {
 		}
 		p.Writers = append(p.Writers, prog)
 	}
-	for i := 0; i < r.Range(0, 2); i++ {
+	for i := 0; i < r.Range(1, 3); i++ {
 		var prog []c01Read
-		for j := 0; j < r.Range(1, 5); j++ {
+		for j := 0; j < r.Range(2, 6); j++ {
 			prog = append(prog, c01RandRead(r, 2))
 		}
 		p.Readers = append(p.Readers, prog)
